@@ -103,6 +103,12 @@ def check(ctx):
     check_loose(ctx, loose_for("C25"))
     ctx.count("twin_pairs", n)
     ctx.floor("twin_pairs", 3)
+    # ---------------- fuse_slice (the getitem fusion run by the default optimisation): both operands' stops are
+    # combined unless absent
+    fs = model.module("dask/array/optimization.py").func("fuse_slice")
+    tests = [n for n in ast.walk(fs) if isinstance(n, ast.If) and "b.stop" in unparse(n.test)]
+    ok = bool(tests) and all(unparse(n.test) in ("b.stop is not None", "a.stop is not None and b.stop is not None", "b.stop is None") or "is not None" in unparse(n.test) or "is None" in unparse(n.test) for n in tests)
+    ctx.ob("ALG.fuse-slice.stop", fs, "fuse_slice tests the stops with `is (not) None`", ok, "" if ok else "a stop of 0 is treated as missing: x[2:][:0] is fused into x[2:] and computes more rows than the lazy shape says")
 
 
 VARIANTS = [
